@@ -311,7 +311,18 @@ def h_canon(obs):
 
 def h_case(case):
     """case: {"a": name, "b": name or None, "order": "0101.." (which instance performs its next step), "fresh": bool}"""
-    d = core.fresh_drv("rel") if case.get("fresh") else core.get_drv("rel")
+    if case.get("perturb") is not None:
+        # glibc fills every block it hands out with this byte (and freed blocks with its complement): a member that init()
+        # leaves unset then holds garbage instead of the zeros of a fresh heap page, as it would after another instance
+        # was destroyed.  The observation of a fresh instance must not depend on it.
+        core.close_drvs()
+        drv.Drv.extra_env = {"MALLOC_PERTURB_": str(case["perturb"])}
+        try:
+            d = core.fresh_drv("rel")
+        finally:
+            drv.Drv.extra_env = {}
+    else:
+        d = core.fresh_drv("rel") if case.get("fresh") else core.get_drv("rel")
     d.reset()
     names = [case["a"]] + ([case["b"]] if case.get("b") else [])
     slots = []
@@ -331,7 +342,10 @@ def h_case(case):
         obs[k].append(h_step(d, slot, names[k], st))
         nops += 1
     keys = [h_canon(o) for o in obs]
-    return {"case": case, "keys": keys, "ops": nops, "script": d.script(), "problems": [], "outcome": "|".join(keys), "states": keys}
+    out = {"case": case, "keys": keys, "ops": nops, "script": d.script(), "problems": [], "outcome": "|".join(keys), "states": keys}
+    if case.get("perturb") is not None:
+        core.close_drvs()          # the perturbed process must not serve the next case
+    return out
 
 
 def interleavings(n):
@@ -360,6 +374,18 @@ def part_h(tier, ev, findings, pool, dl, stats):
             problems.setdefault("sequential result not reproducible: input=%s" % a, ("input %s gives different observations on two fresh instances (fresh process: %s)" % (a, res["case"]["fresh"]), res))
         base.setdefault(a, k)
     ev.bound("lone-instance baselines: %d inputs x {fresh process x2, used process}" % len(names), True, cases=len(base_cases))
+    pert_cases = [{"a": a, "b": None, "order": "0" * n, "fresh": True, "perturb": p} for a in names for p in (85, 170)]
+    for res in pool.map(h_case, pert_cases, 1, ordered=True):
+        ev.traces += 1
+        ev.transitions += res["ops"]
+        a = res["case"]["a"]
+        ev.state(res["keys"][0])
+        if res["keys"][0] != base[a]:
+            problems.setdefault("result of a fresh instance depends on the content of newly allocated memory: input=%s" % a,
+                                ("input %s: a lone fresh instance observes something different when malloc hands out blocks filled with byte %d "
+                                 "instead of fresh zero pages (as after another instance was destroyed): some state is not initialised" % (a, res["case"]["perturb"]), res))
+    core.close_drvs()
+    ev.bound("heap-content differential: %d inputs x newly allocated memory filled with 0x55 / 0xAA (MALLOC_PERTURB_)" % len(names), True, cases=len(pert_cases))
     pairs = [(a, b) for a in names for b in names] if tier == "thorough" else [(a, b) for i, a in enumerate(names) for b in names[i:]]
     orders = list(interleavings(n))
     cases = [{"a": a, "b": b, "order": o} for (a, b) in pairs for o in orders]
